@@ -88,6 +88,7 @@ var vPrograms = [][]string{
 	{"pp", "c", "m"}, {"pc", "p", "c"}, {"p", "p", "c"},
 	{"ppp", "cm"}, {"ppc", "pm"},
 	{"m", "pc"}, {"m", "pp"}, {"mm", "pc"}, {"m", "p", "c"},
+	{"m", "cc"}, {"pm", "cc"}, {"mc", "pc"},
 }
 
 func VH_Concurrent() {
